@@ -56,7 +56,11 @@ def check(run):
              '(iter().cloned() / into_iter() / the view mapped element-wise)')
     for cfg in configs(run, extra_quick=('nd', 'full')):
         F = run.facts(cfg)
-        if cfg == 'base': __import__('common').pins(run, F, 'core_defaults')
+        if cfg == 'base':
+            __import__('common').pins(run, F, 'core_defaults')
+            # the returned-output forms of the five window drivers (taken by the containers that do
+            # not override them: option view, VecDeque, polars) against the written-output forms
+            __import__('common').deps(run, F, 'drivers')
         B.check_fast_paths(run, F)
         overrides(run, F)
         accessors(run, F)
